@@ -18,23 +18,22 @@ ToSet(s) == {s[i] : i \in DOMAIN s}
 Norm(ev) == [ev EXCEPT !.op = [op |-> ev.op.op, from |-> ev.op.from, to |-> ev.op.to, by |-> ev.op.by,
                                 amt |-> ev.op.amt, auth |-> ToSet(ev.op.auth), dt |-> ev.op.dt]]
 
-Init == l = 1 /\ g = GInit("fungible", {}) /\ dead = FALSE /\ cnt = [m \in Monitors |-> 0]
+Init == l = 1 /\ g = GInit("fungible", {}) /\ dead = {} /\ cnt = [m \in Monitors |-> 0]
 
 Report(ev, m) == PrintT(<<"VIOL", ToJson([run |-> ev.run, i |-> ev.i, line |-> l, mon |-> m,
-                                          prop |-> PropOf(m), key |-> Key(m, g, ev)])>>)
+                                          prop |-> PropOf(m), key |-> Key(m, g, ev), after |-> dead])>>)
 
 Next ==
   /\ l <= Len(Rec)
   /\ l' = l + 1
   /\ LET raw == Rec[l] IN
      IF raw.op.op = "reset"
-     THEN g' = GInit(raw.op.flavour, ToSet(raw.op.accts)) /\ dead' = FALSE /\ UNCHANGED cnt
-     ELSE IF dead THEN UNCHANGED <<g, dead, cnt>>
+     THEN g' = GInit(raw.op.flavour, ToSet(raw.op.accts)) /\ dead' = {} /\ UNCHANGED cnt
      ELSE \E ev \in {Norm(raw)} :                 \* bound once, as a value
           /\ g' = GNext(g, ev)
-          /\ LET f == FailingX(g, g', ev) IN
+          /\ LET f == {m \in FailingX(g, g', ev) : PropOf(m) \notin dead} IN
              /\ \A m \in f : Report(ev, m)
-             /\ dead' = (f # {})
+             /\ dead' = dead \cup {PropOf(m) : m \in f}
           /\ cnt' = [m \in Monitors |-> cnt[m] + IF Ante(m, g, ev) THEN 1 ELSE 0]
   /\ (l = Len(Rec) => PrintT(<<"DONE", l, ToJson(cnt')>>))
 
